@@ -150,6 +150,11 @@ def concat(xs):
         else:
             flat.append(x)
     out = []
+    # next to a string constant a part is a string either way (`"a::" + x` needs x to be one, f"a::{x}" makes it one):
+    # on every path that does not raise `x` and `str(x)` are the same part
+    if any(x[0] == 'c' and isinstance(x[1], str) for x in flat):
+        flat = [x[2][0] if (x[0] == 'call' and x[1] == G('str') and len(x[2]) == 1 and not x[3]
+                            and not (x[2][0][0] == 'c')) else x for x in flat]
     for x in flat:
         if x[0] == 'c' and isinstance(x[1], str):
             if x[1] == '':
@@ -292,6 +297,8 @@ def cmp(op, a, b):
         if op == 'in':
             return nary('or', tuple(cmp('==', a, kv[1]) for kv in b[1]))
         return nary('and', tuple(cmp('!=', a, kv[1]) for kv in b[1]))
+    if op in ('is', 'is not', 'isnot') and a[0] == 'c' and b[0] == 'c' and (a[1] is None or b[1] is None):
+        return C((a[1] is b[1]) == (op == 'is'))
     # identity with None:  a freshly built object is never None; the test distributes over a conditional
     if op in ('is', 'is not', 'isnot') and (a == ('c', None) or b == ('c', None)) and a != b:
         x = b if a == ('c', None) else a
@@ -644,6 +651,10 @@ def call(f, args=(), kws=()):
         rest = [kw for kw in kws if not (kw[0] == 'kw' and kw[1] == 'axis' and kw[2] == C(0))]
         if not rest:
             return _cat(args[0][1])
+    # np.diff(a, append=b) is np.diff(np.r_[a, b]);  np.diff(a, prepend=b) is np.diff(np.r_[b, a])
+    if f == G('np.diff') and len(args) == 1 and len(kws) == 1 and kws[0][0] == 'kw' and kws[0][1] in ('append', 'prepend'):
+        parts = (args[0], kws[0][2]) if kws[0][1] == 'append' else (kws[0][2], args[0])
+        return ('call', f, (_cat(parts),), ())
     # np.append(a, b) concatenates
     if f == G('np.append') and nokw and len(args) == 2:
         return _cat((args[0], args[1]))
